@@ -30,6 +30,8 @@ package kvql
 //@ iface (p Plan) Next(ctx *ExecuteCtx) (key []byte, value []byte, err error)
 //@   requires nofail: !failed
 //@   requires wfc: wfCursor(p)
+//@   requires[C05] c5: wfCtx(ctx) && wfRefs()
+//@   ensures[C05] coherent: err == nil && !isnil(key) ==> coherent(ctx, val(key), val(value))
 //@   assigns pcur(p), nops, failed, lastErr, ctx.Hit, mapof(ctx.FieldCaches), mapof(ctx.FieldChunkKeyCaches), mapof(ctx.FieldChunkCaches)
 //@   ensures wfCursor(p)
 //@   ensures err == nil && old(pcur(p)) < plen(p) ==> pcur(p) == old(pcur(p)) + 1 && !isnil(key) && pair(key, value) == pseq(p, old(pcur(p)))
@@ -79,8 +81,10 @@ package kvql
 //@     invariant src: pcur(p.ChildPlan) == p.Start + p.current - (rangeindex + 1) + len(rows) && rowsAre(rows, p.ChildPlan, p.Start + p.current - (rangeindex + 1))
 //
 //@ func (p *LimitPlan) Next(ctx *ExecuteCtx) (key []byte, value []byte, err error)
-//@   props C08 C13
+//@   props C08 C13 C05
 //@   requires limInv(p) && !failed
+//@   requires[C05] c5: wfCtx(ctx) && wfRefs()
+//@   ensures[C05] coherent: err == nil && !isnil(key) ==> coherent(ctx, val(key), val(value))
 //@   assigns p.current, p.skips, pcur(p.ChildPlan), nops, failed, lastErr, ctx.Hit, mapof(ctx.FieldCaches), mapof(ctx.FieldChunkKeyCaches), mapof(ctx.FieldChunkCaches)
 //@   ensures[C08] inv: err == nil ==> limInv(p)
 //@   ensures[C08] row: err == nil && !isnil(key) ==> p.current == old(p.current) + 1 && pair(key, value) == pseq(p.ChildPlan, p.Start + old(p.current))
